@@ -143,6 +143,11 @@ def rule_l_use(ctx):
                 if d0[1] == "call":
                     colour = ctx.role(b, ctx.call_at(b, d0[0].bb).arg_path(0))
                     colour = {CURSOR: OLD, "IT_MAIN": MAIN, "IT_OLD": OLD}.get(colour, colour)
+            if kind == "B" and len(defs) == 1 and defs[0][1] == "assign" and defs[0][2]["rv"]["k"] == "aggregate" and defs[0][2]["rv"].get("adt") == ctx.roles.B:
+                # a located bucket built here with a constant location flag (K-new checks that the flag matches the bucket's table)
+                fv = b.op_const(defs[0][2]["rv"]["ops"][ctx.roles.B_flag])
+                if fv is not None:
+                    colour = MAIN if fv else OLD
             uses = []
             for bb in b.reachable():
                 if b.is_cleanup(bb):
